@@ -131,16 +131,19 @@ def run(tier, seed):
     pool = ThreadPoolExecutor(1)
     laws_future = pool.submit(check_laws, size)
 
-    cases, g = b3.gen_cases("JoinGen", size["gen"], timeout=6000, seed=seed)
-    seen, uniq = set(), []
-    for x in cases:                         # the four parts of the case space overlap in a few cases
-        k = json.dumps(x, sort_keys=True)
-        if k not in seen:
-            seen.add(k)
-            uniq.append(x)
-    cases = uniq
-    states += g.distinct
-    transitions += g.generated
+    # quick: one TLC process generates all parts of the case space; thorough: one process per part
+    parts = [0] if tier != "thorough" else [1, 2, 3, 4, 5]
+    with ThreadPoolExecutor(len(parts)) as ex:
+        gens = list(ex.map(lambda p: b3.gen_cases("JoinGen", dict(size["gen"], Part=p), timeout=6000, seed=seed), parts))
+    seen, cases = set(), []
+    for printed, g in gens:
+        for x in printed:                   # the parts of the case space overlap in a few cases
+            k = json.dumps(x, sort_keys=True)
+            if k not in seen:
+                seen.add(k)
+                cases.append(x)
+        states += g.distinct
+        transitions += g.generated
     t_gen = time.time() - t0
 
     runs = []
